@@ -117,9 +117,26 @@ def check_replay(ck, fn, info, stable):
     supvar = chal.get("sup")
     pointer = info["pointer"]
 
+    # a copy of the node index taken at the top of the iteration (`const Source cur = pos; pos /= 2; ... losers_[cur]`)
+    pos_copies = set()
+    body_stmts = [s_ for s_ in kids(lbody) if s_ is not None] if lbody is not None and lbody["k"] == "CompoundStmt" else []
+    halved = False
+    for s_ in body_stmts:
+        if s_["k"] == "DeclStmt" and not halved:
+            for v_ in kids(s_):
+                if v_["k"] == "VarDecl" and kids(v_) and ref_of(kids(v_)[0]) == posv:
+                    if not any(match.binop(z, ("=", "+=", "-=", "/=", ">>=")) and ref_of(match.binop(z, ("=", "+=", "-=", "/=", ">>="))[1]) == v_["did"]
+                               for z in ir.walk(lbody) if z["k"] in ("BinaryOperator", "CompoundAssignOperator")):
+                        pos_copies.add(v_["did"])
+        if any((match.binop(z, ("=", "/=", ">>=")) and ref_of(match.binop(z, ("=", "/=", ">>="))[1]) == posv) for z in ir.walk(s_)
+               if z["k"] in ("BinaryOperator", "CompoundAssignOperator")):
+            halved = True
+
+    def is_pos(i):
+        return i is not None and (ref_of(i) == posv or ref_of(i) in pos_copies)
+
     def is_node(e):
-        i = node_index(e)
-        return i is not None and ref_of(i) == posv
+        return is_pos(node_index(e))
 
     def key_role(e):
         e = strip_casts(e)
@@ -213,7 +230,7 @@ def check_replay(ck, fn, info, stable):
                 v_ = ev[1]
                 if kids(v_) and kids(v_)[0] is not None:
                     nf_ = node_field(kids(v_)[0])
-                    if nf_ and ref_of(nf_[0]) == posv:
+                    if nf_ and is_pos(nf_[0]):
                         saved[v_["did"]] = nf_[1]            # T tmp = losers_[pos].f;
                 continue
             if ev[0] != "expr":
@@ -225,7 +242,7 @@ def check_replay(ck, fn, info, stable):
             if asg:
                 nf_ = node_field(asg[1])
                 # losers_[pos].f = challenger_f;   (second step)
-                if nf_ and ref_of(nf_[0]) == posv and chal.get(nf_[1]) == ref_of(asg[2]) and nf_[1] in saved.values():
+                if nf_ and is_pos(nf_[0]) and chal.get(nf_[1]) == ref_of(asg[2]) and nf_[1] in saved.values():
                     half[nf_[1]] = True
                     continue
                 # challenger_f = tmp;              (third step)
@@ -239,7 +256,7 @@ def check_replay(ck, fn, info, stable):
                 a0, a1 = kids(c)
                 nf = node_field(a0) or node_field(a1)
                 var = ref_of(a1) if node_field(a0) else ref_of(a0)
-                if nf and ref_of(nf[0]) == posv and chal.get(nf[1]) == var:
+                if nf and is_pos(nf[0]) and chal.get(nf[1]) == var:
                     swapped.add(nf[1])
                     continue
                 ck.violation("REPLAY-FIELDS", fn.qname, "swap-pair:" + dtable.describe(c),
